@@ -6,15 +6,32 @@ keys of the same names; gens.to_yaml_dict copies them) and whose mapping has a `
 
 Everything random derives from the `random.Random` handed in.  The generator never calls into the compiler: the
 final (partitioned, loop-ordered) rank names of every tensor are computed here, so that loop-order, spacetime,
-bindings and format name the same ranks.
+bindings and format name the same ranks.  Component names are unique over all configurations of one architecture
+(the compiler keys components by name globally); level names may repeat.
+
+What is varied (every choice is recorded in case["tags"]):
+  Einsums       mm / mv / elementwise with reduction / 3-operand products / sddmm / 3-D dot / outer / copy / take /
+                1-D convolution / sigma-style mm; cascades of 2-3 Einsums (gamma-like, outerspace-like, random chains);
+                rank names from K J KI PI R H / M I MI N P X U
+  mapping       rank-order, uniform_shape partitioning (1-2 ranks, 1-2 levels, literal or symbolic sizes), flatten() of
+                the two ranks of an input, sigma.yaml's shape + flatten + occupancy, random (level-sorted, rarely
+                inverted) loop orders or the default one, 0-2 space ranks, .pos/.coord styles, opt: slip
+  architecture  1-2 configurations; 1-3 levels deep with `Name[0..N]` instance ranges, pipeline-stage siblings; DRAM(s),
+                Buffets, Caches, Compute, Intersectors of the three types, Mergers, Sequencers
+  bindings      memory chains (one memory per depth) per tensor with coord/payload/elem entries, evict-on, lazy/eager;
+                compute ops; intersectors (leader first or later); mergers for swizzled tensors; several sequencers with
+                one or several ranks; empty binding lists; bindings naming the non-loop format
+  format        one or two named formats per tensor (the second one for another Einsum's loop order or a decoy), U/C,
+                cbits/pbits present, 0 or omitted, layout: interleaved
 
 Classes of cases that the *unchanged* compiler is known to miscompile are still generated (with low probability)
 and carry one of the tags in KNOWN_BAD_TAGS; cases that are expected to be rejected / to crash the compiler carry a
-tag in EXPECT_REJECT_TAGS.  Cases that need a runtime stand-in minifiber does not have carry a MINIFIBER_GAP_TAGS tag.
+tag in EXPECT_REJECT_TAGS.  Cases whose emitted program needs a runtime stand-in that minifiber does not have carry a
+tag in MINIFIBER_GAP_TAGS (the self-test re-runs them with the stand-ins patched in memory).
 
-Self-test:  cd /verif/harness && /venv/bin/python gens7.py <seed> <n>
+Self-test:  cd /verif/harness && /venv/bin/python gens7.py <seed> <n>   [-v] [-x: dump one YAML per failure class]
 """
-import copy, os, sys
+import os, sys
 sys.path.insert(0, os.path.dirname(os.path.abspath(__file__)))
 from gens import V, level_sorted
 
@@ -464,10 +481,6 @@ def gen_sigma_mapping(rng, e, mi, mapping, ext, env, tags):
     tags.append("sigma_mapping")
 
 
-def default_loop(e):
-    return e.ranks()
-
-
 # ------------------------------------------------------------------------------------------ architecture
 
 class Comp:
@@ -862,6 +875,17 @@ def gen_bindings(rng, case_name, eins, decl, storage, infos, configs, fmt, loopf
             tags.append("chain%d" % len(chain))
             if len(chain) >= 2 and chain[0].cls != "DRAM":
                 tags.append("buffer_fills_from_buffer")
+            # a binding that names the tensor's other format (not the one concordant with this loop order)
+            others = [g for g in fmt[t] if g != f and sorted(fmt[t][g]["rank-order"]) == sorted(final)]
+            if others and rng.random() < 0.12:
+                g = rng.choice(others)
+                c = rng.choice(chain)
+                r = rng.choice(final)
+                b = {"tensor": t, "rank": r, "type": rng.choice(["coord", "payload"]), "format": g}
+                if c.cls == "Buffet":
+                    b["evict-on"] = rng.choice(["root"] + mi.loop[:mi.pos(r)])
+                add(c.name, b)
+                tags.append("binding_to_nonloop_format")
         # an eager binding whose innermost evict-on rank is `root` crashes trace_tree (NetworkXError)
         innermost = {}
         for t, r, ev in eager_list:
@@ -1074,10 +1098,22 @@ def conv_isect_cands(e, mi):
 
 # ------------------------------------------------------------------------------------------ g7
 
-_counter = [0]
-
-
 def g7(rng, **opts):
+    """opts:  avoid=<iterable of tags or of the group names "known-bad" / "expect-reject" / "minifiber-gap">:
+    re-draw (from the same rng) until the case carries none of them;  clean=True is avoid=all three groups."""
+    avoid = set(opts.get("avoid") or ())
+    if opts.get("clean"):
+        avoid |= {"known-bad", "expect-reject", "minifiber-gap"}
+    for grp, ts in (("known-bad", KNOWN_BAD_TAGS), ("expect-reject", EXPECT_REJECT_TAGS), ("minifiber-gap", MINIFIBER_GAP_TAGS)):
+        if grp in avoid:
+            avoid |= set(ts)
+    while True:
+        case = _g7(rng)
+        if not avoid.intersection(case["tags"]):
+            return case
+
+
+def _g7(rng):
     tags = ["g7"]
     env = {}
     eins, decl, ext = gen_einsums(rng, tags)
@@ -1137,7 +1173,9 @@ def _selftest(seed, n, verbose=False):
         tagfreq.update(case["tags"])
         d = gens.to_yaml_dict(case)
         special = [t for t in case["tags"] if t in KNOWN_BAD_TAGS + EXPECT_REJECT_TAGS + MINIFIBER_GAP_TAGS]
-        cls = "flagged" if special else "clean"
+        groups = [g for g, ts in (("known-bad", KNOWN_BAD_TAGS), ("expect-reject", EXPECT_REJECT_TAGS),
+                                  ("minifiber-gap", MINIFIBER_GAP_TAGS)) if any(t in ts for t in special)]
+        cls = "+".join(groups) if groups else "clean"
         c = specs.compile_spec(d, "metrics")
         dp = {k: v for k, v in d.items() if k not in ("architecture", "bindings", "format")}
         cp = specs.compile_spec(dp, "plain")
@@ -1192,7 +1230,7 @@ def _selftest(seed, n, verbose=False):
             flagged[(t, key)] += 1
     print("=== g7 self-test: seed %d, %d cases" % (seed, n))
     for k in sorted(hist):
-        print("  %-40s %5d  (%.1f%%)" % (k, hist[k], 100.0 * hist[k] / n))
+        print("  %-62s %5d  (%.1f%%)" % (k, hist[k], 100.0 * hist[k] / n))
     print("--- rejected with ValueError (class, message prefix)")
     for k, v in rej.most_common():
         print("  %5d  %s" % (v, k))
